@@ -3,6 +3,8 @@
 //!
 //! usage: e_c07 C07 <quick|thorough> [--replay file] [only=<substring of config label>]
 //!        e_c07 C10pool <quick|thorough>
+//! env:   C07_EOF=0 switches the zero-length-completion steps (PeerClose / EofBurst) off, C07_EOF=core
+//!        drops tcp from them on io_uring (cost comparisons only)
 
 mod alloc;
 mod c10pool;
@@ -30,6 +32,8 @@ struct Family {
     only: Vec<(u16, usize)>,
     /// restrict to these sources; empty = all
     sources: Vec<Source>,
+    /// zero-length completions (PeerClose / EofBurst) are part of the alphabet on these sources
+    eof: Vec<Source>,
 }
 
 fn families(tier: Tier) -> Vec<Family> {
@@ -37,25 +41,38 @@ fn families(tier: Tier) -> Vec<Family> {
     let all_b8 = vec![(1, 8), (2, 8), (4, 8)];
     let all_b16 = vec![(1, 16), (2, 16), (4, 16)];
     let _ = (&all_b8, &all_b16);
+    // zero-length completions: sources that have an end of file (UDP has none)
+    let eof_all = vec![Source::Pipe, Source::Unix, Source::Tcp, Source::File];
+    // quick, io_uring: tcp left out (same operations as unix; a ring costs ~1 ms per execution)
+    let eof_core = vec![Source::Pipe, Source::Unix, Source::File];
+    // quick, io_uring, deepest family: only the sources whose 0-byte completions consume a ring buffer
+    let eof_min = vec![Source::Pipe, Source::File];
+    let _ = (&eof_all, &eof_core, &eof_min);
     let mut v = match tier {
         Tier::Quick => vec![
-            Family { driver: DriverType::IoUring, lens: vec![0], depth: d("C07_DEPTH_IOUR", 4, 0), slots: 1, only: vec![(2, 8)], sources: vec![] },
-            Family { driver: DriverType::IoUring, lens: vec![0], depth: d("C07_DEPTH_IOUR_B", 3, 0), slots: 1, only: vec![(1, 8), (4, 8)], sources: vec![] },
-            Family { driver: DriverType::IoUring, lens: vec![0, 3], depth: d("C07_DEPTH_IOUR_FULL", 3, 0), slots: 1, only: vec![(2, 16)], sources: vec![] },
-            Family { driver: DriverType::Poll, lens: vec![0, 3], depth: d("C07_DEPTH_POLL_FULL", 5, 0), slots: 1, only: all_b8.clone(), sources: vec![] },
-            Family { driver: DriverType::Poll, lens: vec![0, 3], depth: d("C07_DEPTH_POLL_B", 4, 0), slots: 1, only: all_b16.clone(), sources: vec![] },
-            Family { driver: DriverType::Poll, lens: vec![0], depth: d("C07_DEPTH_POLL", 6, 0), slots: 1, only: vec![(2, 8)], sources: vec![Source::Pipe, Source::Unix] },
+            Family { driver: DriverType::IoUring, lens: vec![0], depth: d("C07_DEPTH_IOUR", 4, 0), slots: 1, only: vec![(2, 8)], sources: vec![], eof: eof_min.clone() },
+            Family { driver: DriverType::IoUring, lens: vec![0], depth: d("C07_DEPTH_IOUR_B", 3, 0), slots: 1, only: vec![(1, 8), (4, 8)], sources: vec![], eof: eof_core.clone() },
+            Family { driver: DriverType::IoUring, lens: vec![0, 3], depth: d("C07_DEPTH_IOUR_FULL", 3, 0), slots: 1, only: vec![(2, 16)], sources: vec![], eof: eof_core.clone() },
+            Family { driver: DriverType::Poll, lens: vec![0, 3], depth: d("C07_DEPTH_POLL_FULL", 5, 0), slots: 1, only: all_b8.clone(), sources: vec![], eof: eof_all.clone() },
+            Family { driver: DriverType::Poll, lens: vec![0, 3], depth: d("C07_DEPTH_POLL_B", 4, 0), slots: 1, only: all_b16.clone(), sources: vec![], eof: eof_all.clone() },
+            Family { driver: DriverType::Poll, lens: vec![0], depth: d("C07_DEPTH_POLL", 6, 0), slots: 1, only: vec![(2, 8)], sources: vec![Source::Pipe, Source::Unix], eof: eof_all.clone() },
         ],
         // in priority order: the time budget cuts from the end
         Tier::Thorough => vec![
-            Family { driver: DriverType::IoUring, lens: vec![0, 3], depth: d("C07_DEPTH_IOUR_FULL", 0, 5), slots: 1, only: all_b8.clone(), sources: vec![] },
-            Family { driver: DriverType::IoUring, lens: vec![0, 3], depth: d("C07_DEPTH_IOUR_B", 0, 4), slots: 2, only: all_b16.clone(), sources: vec![] },
-            Family { driver: DriverType::IoUring, lens: vec![0], depth: d("C07_DEPTH_IOUR", 0, 6), slots: 1, only: vec![(2, 8)], sources: vec![Source::Unix] },
-            Family { driver: DriverType::Poll, lens: vec![0, 3], depth: d("C07_DEPTH_POLL_FULL", 0, 6), slots: 2, only: vec![], sources: vec![] },
-            Family { driver: DriverType::Poll, lens: vec![0], depth: d("C07_DEPTH_POLL", 0, 7), slots: 1, only: all_b8.clone(), sources: vec![] },
-            Family { driver: DriverType::Poll, lens: vec![0], depth: d("C07_DEPTH_POLL_DEEP", 0, 8), slots: 1, only: vec![(2, 8)], sources: vec![Source::Pipe, Source::Unix] },
+            Family { driver: DriverType::IoUring, lens: vec![0, 3], depth: d("C07_DEPTH_IOUR_FULL", 0, 5), slots: 1, only: all_b8.clone(), sources: vec![], eof: eof_all.clone() },
+            Family { driver: DriverType::IoUring, lens: vec![0, 3], depth: d("C07_DEPTH_IOUR_B", 0, 4), slots: 2, only: all_b16.clone(), sources: vec![], eof: eof_all.clone() },
+            Family { driver: DriverType::IoUring, lens: vec![0], depth: d("C07_DEPTH_IOUR", 0, 6), slots: 1, only: vec![(2, 8)], sources: vec![Source::Unix], eof: eof_all.clone() },
+            Family { driver: DriverType::Poll, lens: vec![0, 3], depth: d("C07_DEPTH_POLL_FULL", 0, 6), slots: 2, only: vec![], sources: vec![], eof: eof_all.clone() },
+            Family { driver: DriverType::Poll, lens: vec![0], depth: d("C07_DEPTH_POLL", 0, 7), slots: 1, only: all_b8.clone(), sources: vec![], eof: eof_all.clone() },
+            Family { driver: DriverType::Poll, lens: vec![0], depth: d("C07_DEPTH_POLL_DEEP", 0, 8), slots: 1, only: vec![(2, 8)], sources: vec![Source::Pipe, Source::Unix], eof: eof_all.clone() },
         ],
     };
+    // C07_EOF=0 switches the zero-length dimension off, C07_EOF=core drops tcp from it (cost comparisons)
+    match std::env::var("C07_EOF").as_deref() {
+        Ok("0") => v.iter_mut().for_each(|f| f.eof.clear()),
+        Ok("core") => v.iter_mut().for_each(|f| if f.driver == DriverType::IoUring { f.eof = eof_core.clone() }),
+        _ => {}
+    }
     v.retain(|f| f.depth > 0);
     v
 }
@@ -82,6 +99,7 @@ fn configs(tier: Tier, only: Option<&str>) -> Vec<Cfg> {
                         slots: f.slots,
                         settle: Duration::from_millis(1000),
                         verbose: false,
+                        eof: f.eof.contains(&source),
                     };
                     if only.is_none_or(|o| c.label().contains(o)) {
                         v.push(c);
@@ -100,7 +118,7 @@ fn env_usize(k: &str) -> Option<usize> {
 fn cfg_json(c: &Cfg) -> vcore::Value {
     json!({
         "driver": driver_name(c.driver), "source": c.source.name(), "pool_size": c.pool,
-        "buffer_len": c.buflen, "depth": c.depth, "lens": c.lens, "slots": c.slots,
+        "buffer_len": c.buflen, "depth": c.depth, "lens": c.lens, "slots": c.slots, "eof": c.eof,
     })
 }
 
@@ -122,6 +140,7 @@ fn cfg_from_json(v: &vcore::Value) -> Cfg {
         slots: v["slots"].as_u64().unwrap_or_else(|| bad()) as usize,
         settle: Duration::from_millis(1000),
         verbose: true,
+        eof: v["eof"].as_bool().unwrap_or(false),
     }
 }
 
@@ -180,6 +199,7 @@ fn c07(args: vcore::Args) {
         let cfg = cfg_from_json(&r["config"]);
         let choices: Vec<u32> = r["choices"].as_array().map(|a| a.iter().map(|x| x.as_u64().unwrap() as u32).collect()).unwrap_or_default();
         println!("replaying {} choices {:?}", cfg.label(), choices);
+        world::calibrate();
         if let Ok(pre) = std::env::var("C07_PRE") {
             for list in pre.split(';') {
                 let c: Vec<u32> = list.split(',').filter_map(|x| x.trim().parse().ok()).collect();
@@ -214,7 +234,7 @@ fn c07(args: vcore::Args) {
         vcore::machinery_error("no configuration selected");
     }
     report.rule(
-        "every sequence of at most `depth` harness steps (ManagedRead(len) / MultiStart / MultiNext / MultiDrop / PeerWrite(3 | buflen+3) / Release(any held handle) / Cancel(any pending read) / Harvest / DropRuntimeKeepingHandles, each only when enabled; Stop at every prefix) is executed on a fresh real compio runtime for every configuration driver x source x pool_size x buffer_len; each sequence ending with Stop is followed by the conservation probe; distinct_nontrivial = distinct sets of (step kind, observation class) pairs seen in one execution",
+        "every sequence of at most `depth` harness steps (ManagedRead(len) / MultiStart / MultiNext / MultiDrop / PeerWrite(3 | buflen+3) / Release(any held handle) / Cancel(any pending read) / Harvest / DropRuntimeKeepingHandles / PeerClose (pipe, unix, tcp: the harness closes its end once; what it wrote stays readable, then every single-shot read and the multishot stream complete with 0 bytes) / EofBurst (at end of file -- peer closed and nothing unread, or file cursor at the end: pool_size+1 managed reads in a row, each awaited), each only when enabled; Stop at every prefix) is executed on a fresh real compio runtime for every configuration driver x source x pool_size x buffer_len; each sequence ending with Stop is followed by the conservation probe (on a fresh source of the same kind in the same runtime if the peer was closed); a 0-byte result must be Ok(None) / end of stream and is legitimate only at end of file; distinct_nontrivial = distinct sets of (step kind, observation class) pairs seen in one execution",
     );
     report.extra(
         "bounds",
@@ -222,7 +242,8 @@ fn c07(args: vcore::Args) {
             "drivers": ["io_uring buffer ring", "fallback pool (polling driver)"],
             "sources": Source::ALL.iter().map(|s| s.name()).collect::<Vec<_>>(),
             "pool_sizes": [1, 2, 4], "buffer_lens": [8, 16],
-            "families": families(tier).iter().map(|f| json!({"driver": driver_name(f.driver), "read_len_arguments": f.lens, "depth": f.depth, "simultaneously_pending_single_reads": f.slots, "pool_x_buflen": if f.only.is_empty() { json!("all") } else { json!(f.only) }, "sources": if f.sources.is_empty() { json!("all") } else { json!(f.sources.iter().map(|s| s.name()).collect::<Vec<_>>()) }})).collect::<Vec<_>>(),
+            "families": families(tier).iter().map(|f| json!({"driver": driver_name(f.driver), "read_len_arguments": f.lens, "depth": f.depth, "simultaneously_pending_single_reads": f.slots, "pool_x_buflen": if f.only.is_empty() { json!("all") } else { json!(f.only) }, "sources": if f.sources.is_empty() { json!("all") } else { json!(f.sources.iter().map(|s| s.name()).collect::<Vec<_>>()) }, "zero_length_steps_on": f.eof.iter().map(|s| s.name()).collect::<Vec<_>>()})).collect::<Vec<_>>(),
+            "zero_length_completions": {"sources_with_PeerClose": ["pipe", "unix", "tcp"], "sources_with_EofBurst": ["pipe", "unix", "tcp", "file"], "zero_length_reads_per_runtime": "up to depth-1 single reads plus pool_size+1 per EofBurst", "not_covered": "empty UDP datagrams"},
             "multishot_streams_at_a_time": 1,
             "peer_write_sizes": ["3", "buffer_len+3"], "settle_bound_ms": 1000,
             "configurations": cfgs.len(),
@@ -230,6 +251,14 @@ fn c07(args: vcore::Args) {
     );
     report.assume("the peer end of every source is operated by the harness thread; a completion is only demanded (bounded settle, 1 s) when FIONREAD shows readable data for an operation that an earlier zero-timeout poll handed to the OS");
     report.assume("loopback TCP data counts as delivered when the writer's TIOCOUTQ is 0; loopback UDP datagrams are taken as delivered when write() returns");
+    let calib = world::calibrate();
+    let kernel_selects = calib.iter().any(|(k, b)| *b == Some(true) && cfgs.iter().any(|c| c.eof && c.source == *k && c.driver == DriverType::IoUring));
+    report.extra(
+        "zero_length_completion_consumes_a_ring_buffer_on_this_kernel",
+        json!(calib.iter().map(|(k, b)| (k.name().to_string(), match b { Some(true) => json!(true), Some(false) => json!(false), None => json!("not determined / not applicable") })).collect::<serde_json::Map<_, _>>()),
+    );
+    report.assume("whether the running kernel consumes a ring buffer for a 0-byte completion is calibrated once per source kind at start, independently of compio's bookkeeping (ring of one buffer: a first managed read at end of file completes and its operation value is kept; a second one fails with ENOBUFS iff the first consumed the buffer); the counter managed_read_completed_with_zero_bytes_and_a_selected_buffer counts single-shot 0-byte completions on io_uring for the kinds calibrated as consuming");
+    report.assume("loopback TCP: the harness' FIN counts as delivered when poll() shows POLLRDHUP on the source");
     report.assume("buffer ids are read from the Debug output of BufferRef (there is no public getter)");
     for k in [
         "two-live-handles-distinct",
@@ -243,6 +272,24 @@ fn c07(args: vcore::Args) {
         "file-eof-zero-length-completion",
     ] {
         report.must_reach(k);
+    }
+    if cfgs.iter().any(|c| c.eof && c.source != Source::File) {
+        report.must_reach("managed-read-zero-length-completion");
+        report.must_reach("multishot-stream-ended-at-end-of-file");
+    }
+    if kernel_selects {
+        report.must_reach(world::ZERO_SELECTED);
+        for (k, b) in calib {
+            if *b == Some(true) && cfgs.iter().any(|c| c.eof && c.source == *k && c.driver == DriverType::IoUring) {
+                if let Some(name) = world::zero_selected_by_kind(*k) {
+                    report.must_reach(name);
+                }
+            }
+        }
+    } else {
+        // advisory: the running kernel does not consume a buffer for 0-byte results (or no
+        // zero-length configuration is selected), the counter stays in the evidence with value 0
+        report.count(world::ZERO_SELECTED, 0);
     }
 
     // work items: (config, first choice).  The first choice point is static: nothing is held or
@@ -365,7 +412,7 @@ use vcore::serde_json;
 fn bench() {
     use std::time::Instant;
     for driver in [DriverType::IoUring, DriverType::Poll] {
-        let cfg = Cfg { driver, pool: 2, buflen: 8, source: Source::Pipe, depth: 0, lens: vec![0], slots: 1, settle: Duration::from_secs(1), verbose: false };
+        let cfg = Cfg { driver, pool: 2, buflen: 8, source: Source::Pipe, depth: 0, lens: vec![0], slots: 1, settle: Duration::from_secs(1), verbose: false, eof: false };
         let mut tb = Duration::ZERO;
         let mut td = Duration::ZERO;
         for _ in 0..500 {
